@@ -98,9 +98,9 @@ def one(acc, framing, side, m, unit, tid, pid):
     if framing == 'tcp' and (d.transaction_id != tid or d.protocol_id != pid):
         acc.violation('C03/%s/%s/%s/deliver/mbap-ids/%s' % (framing, side, cname, pc), wit,
                       'tid/pid %r/%r' % (d.transaction_id, d.protocol_id), cfg)
-    if len(rx._buffer):
+    if framers.buffered(rx):
         acc.violation('C03/%s/%s/%s/deliver/residue/%s' % (framing, side, cname, pc), wit,
-                      '%d bytes left in the receive buffer' % len(rx._buffer), cfg)
+                      '%d bytes left in the receive buffer' % framers.buffered(rx), cfg)
     # the call shapes the library's own callers use: the unit as a scalar and no `single` keyword (clients,
     # transaction manager), the unit list and no `single` keyword
     for shape, args in (('scalar-unit', (unit,)), ('unit-list', ([unit],))):
